@@ -1,17 +1,33 @@
 (* StatusMap: the decision logic of solve_milp_lp_problem_with (milp_solver.rs) that turns microlp's raw outcome
    into rooc's result - the part of C15 that is rooc's own code. *)
-From Coq Require Import Bool List.
+From Coq Require Import QArith Qabs Qminmax Bool List.
 Import ListNotations.
+Local Open Scope Q_scope.
 
 Inductive raw := RawOptimal | RawFeasible | RawInterrupted
                | RawErrInfeasible | RawErrUnbounded | RawErrInvalidOptions | RawErrInvalidOperation | RawErrInternal.
 Inductive outcome := OutOptimal | OutFeasible
                    | OutErrLimitReached | OutErrInfeasible | OutErrUnbounded | OutErrOther.
 
+(* what rooc looks at besides the status when the search reports Optimal: the requested gap, the value it is about to
+   report (the model's constant term included) and microlp's proven bound shifted by the same constant *)
+Record obs := mkObs { o_gap : option Q; o_value : Q; o_bound : option Q }.
+Definition gap_guard : Q := 1 # 10000000000.
+Definition gap_room (g value : Q) : Q := g * Qmax (Qabs value) gap_guard.
+Definition within_gap (g value bound : Q) : bool := Qle_bool (Qabs (value - bound)) (gap_room g value).
+
+(* milp_solver.rs, arm microlp::Status::Optimal: microlp measured the gap on an objective without the constant term;
+   it is measured again on the reported value *)
+Definition label_optimal (o : obs) : outcome :=
+  match o_gap o, o_bound o with
+  | Some g, Some b => if Qle_bool g 0 then OutOptimal else if within_gap g (o_value o) b then OutOptimal else OutFeasible
+  | _, _ => OutOptimal
+  end.
+
 (* milp_solver.rs: Ok(s) => match s.status() {..} ; Err(e) => match e {..} *)
-Definition wrap (r : raw) : outcome :=
+Definition wrap (r : raw) (o : obs) : outcome :=
   match r with
-  | RawOptimal => OutOptimal
+  | RawOptimal => label_optimal o
   | RawFeasible => OutFeasible
   | RawInterrupted => OutErrLimitReached
   | RawErrInfeasible => OutErrInfeasible
@@ -22,9 +38,12 @@ Definition wrap (r : raw) : outcome :=
 Definition is_solution (o : outcome) : bool := match o with OutOptimal | OutFeasible => true | _ => false end.
 
 (* the property's labelling rules *)
-Definition labelling_ok (r : raw) (o : outcome) : Prop :=
+Definition labelling_ok (r : raw) (ob : obs) (o : outcome) : Prop :=
   match r with
-  | RawOptimal => o = OutOptimal                      (* proven within the requested gap: may be called optimal *)
+  | RawOptimal =>                                     (* proven by the search: optimal, or - outside the gap once the constant is counted - feasible *)
+      (o = OutOptimal \/ o = OutFeasible) /\
+      (o = OutOptimal -> forall g b, o_gap ob = Some g -> 0 < g -> o_bound ob = Some b ->
+         Qabs (o_value ob - b) <= gap_room g (o_value ob))
   | RawFeasible => o = OutFeasible                    (* incumbent only: merely feasible, never optimal *)
   | RawInterrupted => is_solution o = false           (* stopped before any feasible point: an error, not a solution *)
   | RawErrInvalidOptions => is_solution o = false     (* invalid option values are rejected with an error *)
@@ -33,8 +52,36 @@ Definition labelling_ok (r : raw) (o : outcome) : Prop :=
   | RawErrInvalidOperation | RawErrInternal => is_solution o = false
   end.
 
-Theorem wrap_never_mislabels : forall r, labelling_ok r (wrap r).
-Proof. destruct r; reflexivity. Qed.
+Theorem wrap_never_mislabels : forall r ob, labelling_ok r ob (wrap r ob).
+Proof.
+  destruct r; intros ob; cbn [wrap labelling_ok]; try reflexivity. unfold label_optimal. split.
+  - destruct (o_gap ob) as [g|]; [|left; reflexivity]. destruct (o_bound ob) as [b|]; [|left; reflexivity].
+    destruct (Qle_bool g 0); [left; reflexivity|]. destruct (within_gap g (o_value ob) b); [left|right]; reflexivity.
+  - intros H g b Hg Pg Hb. rewrite Hg, Hb in H. destruct (Qle_bool g 0) eqn:G.
+    + apply Qle_bool_iff in G. exfalso. exact (Qlt_not_le _ _ Pg G).
+    + destruct (within_gap g (o_value ob) b) eqn:W; [|discriminate H]. apply Qle_bool_iff in W. exact W.
+Qed.
+
+(* the label against the TRUE optimum: whenever the proven bound and the reported value bracket it (what a bound is),
+   a result labelled optimal under a positive gap is within that gap of it *)
+Theorem optimal_label_within_gap_of_optimum : forall r ob g b opt,
+  wrap r ob = OutOptimal -> r = RawOptimal -> o_gap ob = Some g -> 0 < g -> o_bound ob = Some b ->
+  (b <= opt <= o_value ob \/ o_value ob <= opt <= b) ->
+  Qabs (o_value ob - opt) <= gap_room g (o_value ob).
+Proof.
+  intros r ob g b opt H -> Hg Pg Hb Br.
+  destruct (wrap_never_mislabels RawOptimal ob) as [_ K]. specialize (K H g b Hg Pg Hb).
+  eapply Qle_trans; [|exact K].
+  destruct Br as [[B1 B2]|[B1 B2]].
+  - rewrite !Qabs_pos.
+    + apply Qplus_le_r. apply Qopp_le_compat. exact B1.
+    + apply -> Qle_minus_iff. eapply Qle_trans; [exact B1|exact B2].
+    + apply -> Qle_minus_iff. exact B2.
+  - rewrite !Qabs_neg.
+    + apply Qopp_le_compat. apply Qplus_le_r. apply Qopp_le_compat. exact B2.
+    + apply Qle_minus_iff. setoid_replace (0 - (o_value ob - b)) with (b + - o_value ob) by ring. apply -> Qle_minus_iff. eapply Qle_trans; [exact B1|exact B2].
+    + apply Qle_minus_iff. setoid_replace (0 - (o_value ob - opt)) with (opt + - o_value ob) by ring. apply -> Qle_minus_iff. exact B1.
+Qed.
 
 Definition raw_eqb (a b : raw) : bool :=
   match a, b with
@@ -49,6 +96,16 @@ Definition outcome_eqb (a b : outcome) : bool :=
   | _, _ => false end.
 
 (* correspondence: observed (raw, outcome) pairs must be what the model's wrap produces *)
-Definition pair_failures (l : list (raw * outcome)) : list nat :=
-  map fst (filter (fun p : nat * (raw * outcome) => negb (outcome_eqb (wrap (fst (snd p))) (snd (snd p))))
-                  (combine (seq 0 (length l)) l)).
+(* a relabelling decision taken within 1e-9 (relative) of the threshold may fall either way in f64 *)
+Definition near_threshold (o : obs) : bool :=
+  match o_gap o, o_bound o with
+  | Some g, Some b => let d := Qabs (o_value o - b) in let t := gap_room g (o_value o) in
+                      Qle_bool (Qabs (d - t)) ((1 # 1000000000) * Qmax t 1)
+  | _, _ => false
+  end.
+Definition pair_ok (p : raw * obs * outcome) : bool :=
+  let '(r, o, out) := p in
+  outcome_eqb (wrap r o) out
+  || (match r with RawOptimal => near_threshold o && is_solution out | _ => false end).
+Definition pair_failures (l : list (raw * obs * outcome)) : list nat :=
+  map fst (filter (fun p : nat * (raw * obs * outcome) => negb (pair_ok (snd p))) (combine (seq 0 (length l)) l)).
